@@ -6,7 +6,7 @@ META = {
                          "interval": "symbolic 0 <= lower <= upper <= 1", "axes": "fpr/tpr, y=fnr, x=tnr, exchanged axes"},
                "thorough": {"scores": "P,N in 1..3", "easy counts": "{(0,0),(1,2),(2,0)}"}},
     "assumptions": ["R-ideal: rates and the trapezoid sum are exact rationals", "one path per weak order of the scores and their one-step neighbours (adjacent floats included); on each path all counts are folded to constants (entailed by the path condition), so the area is linear in lower/upper",
-                    "nextafter = one-step functions with gap axioms against all input scores"],
+                    "nextafter = one-step functions with gap axioms against all input scores (R-ideal items); kind=fbits: z3 FloatingPoint scores with bit-precise nextafter through the real auc() on 1+1 scores (rates stay exact rationals)"],
 }
 OPTS = {"quick": {"query_timeout_ms": 30000, "max_paths": 100000, "max_decisions": 5000, "check_timeout_ms": 10000},
         "thorough": {"query_timeout_ms": 120000, "max_paths": 1000000, "max_decisions": 20000}}
@@ -26,7 +26,21 @@ def items(tier):
                             out.append({"kind": "partial", "sc": sc, "ec": ec, "P": P, "N": N, "kp": kp, "kn": kn, "slice": sl})
                     else:
                         out.append({"kind": "partial", "sc": sc, "ec": ec, "P": P, "N": N, "kp": kp, "kn": kn})
+    for sc, ec in CFGS:
+        out.append({"kind": "fbits", "sc": sc, "ec": ec})
     return out
+
+
+def run_fbits(h, sc, ec):
+    """F-bits: one positive and one negative score as SYMBOLIC IEEE doubles (equal, adjacent or apart), bit-precise
+    nextafter: the real auc() returns exactly 1, 1/2 or 0 as the Mann-Whitney statistic demands."""
+    x, y = h.fp("pos0"), h.fp("neg0")
+    h.policy(sort="fork", gather="fork", fold=True)
+    S = h.sa.Scores(h.array([x]), h.array([y]), score_class=sc, equal_class=ec, is_sorted=True)
+    a = S.auc()
+    beats = (x > y) if sc == "pos" else (x < y)
+    h.check("[float64] AUC of one positive and one negative double = 1 if ranked correctly, 1/2 if tied, 0 otherwise (adjacent doubles included)",
+            h.eq(a * 2, h.ite(beats, 2, h.ite(x == y, 1, 0))))
 
 
 def run(h, kind, **p):
